@@ -99,7 +99,13 @@ fn attr_text(f: &Field) -> String {
     format!("#[{}({}{})]", name, args.join(", "), trailing)
 }
 
+/// index of the field whose enum / nested type this field uses (its own unless shared)
+fn ty_index(f: &Field, j: usize) -> usize {
+    f.share_with.unwrap_or(j)
+}
+
 fn elem_type(f: &Field, j: usize) -> String {
+    let j = ty_index(f, j);
     let w = f.width();
     match &f.kind {
         Kind::Bool => "bool".into(),
@@ -120,15 +126,17 @@ fn elem_type(f: &Field, j: usize) -> String {
 
 /// type taken by with_/set_ and by the builder
 fn setter_type(f: &Field, j: usize) -> String {
+    let t = ty_index(f, j);
     match &f.kind {
-        Kind::EnumOpt { .. } => format!("E{j}"),
+        Kind::EnumOpt { .. } => format!("E{t}"),
         _ => elem_type(f, j),
     }
 }
 
 fn getter_type(f: &Field, j: usize) -> String {
+    let t = ty_index(f, j);
     match &f.kind {
-        Kind::EnumOpt { .. } => format!("Result<E{j}, u{}>", storage_bits(f.width())),
+        Kind::EnumOpt { .. } => format!("Result<E{t}, u{}>", storage_bits(f.width())),
         _ => elem_type(f, j),
     }
 }
@@ -137,20 +145,32 @@ fn enum_decl(out: &mut String, j: usize, w: u32, discs: &[u128], exhaustive: boo
     let s = storage_bits(w);
     // accepted spellings: `exhaustive = b`, legacy `exhaustive: b`, and nothing at all for a
     // non-exhaustive enum; discriminants in decimal, hexadecimal or binary
-    let ex = match (exhaustive, style % 3) {
+    let conditional = !exhaustive && style % 4 == 3;
+    let ex = match (exhaustive, style % 4) {
         (true, 1) => ", exhaustive: true".to_string(),
         (true, _) => ", exhaustive = true".to_string(),
         (false, 0) => ", exhaustive = false".to_string(),
         (false, 1) => ", exhaustive: false".to_string(),
-        (false, _) => String::new(),
+        (false, 2) => String::new(),
+        // `conditional`: variants may carry #[cfg]; conversions behave like a non-exhaustive enum
+        (false, _) => ", exhaustive = conditional".to_string(),
     };
     let _ = writeln!(out, "#[bitenum(u{w}{ex})]\n#[derive(Debug, PartialEq, Eq)]\n#[repr(u{s})]\npub enum E{j} {{");
     for (k, d) in discs.iter().enumerate() {
-        let _ = match (style / 3) % 3 {
+        if conditional && k == 0 {
+            let _ = writeln!(out, "    #[cfg(all())]");
+        }
+        let _ = match (style / 4) % 3 {
             1 => writeln!(out, "    V{k} = {d:#x},"),
             2 if *d < (1 << 16) => writeln!(out, "    V{k} = {d:#b},"),
             _ => writeln!(out, "    V{k} = {d},"),
         };
+    }
+    if conditional {
+        // a variant that is configured out: it must not exist in the conversions
+        if let Some(free) = (0..=crate::prng::mask(w).min(1 << 12)).find(|x| !discs.contains(x)) {
+            let _ = writeln!(out, "    #[cfg(any())]\n    Never = {free},");
+        }
     }
     let _ = writeln!(out, "}}");
     // in: u128 -> variant; out: variant -> u128. Both spelled out from the description so that
@@ -180,6 +200,9 @@ pub fn layout_module(l: &Layout) -> String {
     // auxiliary types
     for (j, f) in l.fields.iter().enumerate() {
         let w = f.value_width();
+        if f.share_with.is_some() {
+            continue; // uses the type declared for an earlier field
+        }
         match &f.kind {
             Kind::EnumExh => {
                 let discs = f.exhaustive_variants();
@@ -190,9 +213,12 @@ pub fn layout_module(l: &Layout) -> String {
                 enum_decl(&mut o, j, w, &d, false, f.attr_order.wrapping_add(f.variant_rot as u8).wrapping_add(d.len() as u8));
             }
             Kind::Nested => {
+                // a small bitfield of its own: a flag at bit 0 and, where there is room, a view
+                // over all of its bits
+                let all = if w >= 2 { format!("    #[bits(0..={}, rw)]\n    all: u{w},\n", w - 1) } else { String::new() };
                 let _ = writeln!(
                     o,
-                    "#[bitfield(u{w})]\n#[derive(Debug, PartialEq, Eq)]\npub struct N{j} {{\n    #[bit(0, rw)]\n    b0: bool,\n}}"
+                    "#[bitfield(u{w})]\n#[derive(Debug, PartialEq, Eq)]\npub struct N{j} {{\n    #[bit(0, rw)]\n    b0: bool,\n{all}}}"
                 );
             }
             _ => {}
@@ -219,7 +245,8 @@ pub fn layout_module(l: &Layout) -> String {
             }
         },
     };
-    let _ = writeln!(o, "#[bitfield({}{})]\n#[derive(PartialEq, Eq)]\npub struct T {{", base_ty(n), default_attr);
+    let debug_attr = if l.debug { ", debug" } else { "" };
+    let _ = writeln!(o, "#[bitfield({}{}{})]\n#[derive(PartialEq, Eq)]\npub struct T {{", base_ty(n), default_attr, debug_attr);
     for (j, f) in l.fields.iter().enumerate() {
         let et = elem_type(f, j);
         let ty = match f.array {
@@ -243,14 +270,15 @@ pub fn layout_module(l: &Layout) -> String {
     // conversions
     for (j, f) in l.fields.iter().enumerate() {
         let w = f.value_width();
+        let t = ty_index(f, j);
         let st = setter_type(f, j);
         let body_in = match &f.kind {
             Kind::Bool => "(v & 1) != 0".to_string(),
             Kind::Arb | Kind::Native => uint_in(w, "v"),
             Kind::Signed => format!("v as u{w} as i{w}"),
-            Kind::EnumExh => format!("e{j}_in(v & {:#x}u128)", mask(w)),
-            Kind::EnumOpt { .. } => format!("e{j}_in(v)"),
-            Kind::Nested => format!("N{j}::new_with_raw_value({})", uint_in(w, "v")),
+            Kind::EnumExh => format!("e{t}_in(v & {:#x}u128)", mask(w)),
+            Kind::EnumOpt { .. } => format!("e{t}_in(v)"),
+            Kind::Nested => format!("N{t}::new_with_raw_value({})", uint_in(w, "v")),
         };
         let _ = writeln!(o, "#[inline(never)]\npub fn in_{j}(v: u128) -> {st} {{ {body_in} }}");
         let gt = getter_type(f, j);
@@ -258,8 +286,8 @@ pub fn layout_module(l: &Layout) -> String {
             Kind::Bool => "(x as u128, TAG_PLAIN)".to_string(),
             Kind::Arb | Kind::Native => format!("({}, TAG_PLAIN)", uint_out(w, "x")),
             Kind::Signed => format!("(x as u{w} as u128, TAG_PLAIN)"),
-            Kind::EnumExh => format!("(e{j}_out(x), TAG_PLAIN)"),
-            Kind::EnumOpt { .. } => format!("match x {{ Ok(e) => (e{j}_out(e), TAG_OK), Err(r) => (r as u128, TAG_ERR) }}"),
+            Kind::EnumExh => format!("(e{t}_out(x), TAG_PLAIN)"),
+            Kind::EnumOpt { .. } => format!("match x {{ Ok(e) => (e{t}_out(e), TAG_OK), Err(r) => (r as u128, TAG_ERR) }}"),
             Kind::Nested => format!("({}, TAG_PLAIN)", uint_out(w, "x.raw_value()")),
         };
         let _ = writeln!(o, "#[inline(never)]\npub fn out_{j}(x: {gt}) -> (u128, u8) {{ {body_out} }}");
